@@ -28,11 +28,13 @@ RULE = ('Each case = 1-4 generated probe directories (independent spike counts 4
         'files point back to probe and original id; input directories content-hashed before/after; a third of the cases merge the same probes twice in '
         'one process and judge the second output. '
         'non-trivial = distinct merges with >= 2 probes and a cross-probe time tie, or >= 3 probes.')
+RULE += ' Added classes: probe folders whose given order is not their lexicographic order (imec2/imec10/..., right/left/mid/aux) or whose names hold glob metacharacters ([ ] *); calibrated fractional sampling rates; column-major .npy inputs in any probe; non-finite samples in a template (uncurated merges); history merge / split a cluster in the first probe / merge() again on the same Merger, judged against the inputs as they are then.'
 EXHAUSTIVE = {'quick': False, 'thorough': False}
 FLOORS = {'quick': {'evaluations': 950, 'distinct_nontrivial': 400},
           'thorough': {'evaluations': 15000, 'distinct_nontrivial': 6000}}
 ASSUMPTIONS = ['probes with a single spike / template / channel are excluded (squeeze(); the source says '
-               '"may fail in degenerate cases")', 'probe coordinates are non-negative (quantifier of C12)']
+               '"may fail in degenerate cases")', 'probe coordinates are non-negative (quantifier of C12)',
+               'templates with isolated NaN / inf samples are merged only when no probe has curated clusters: load_model refuses such templates for multi-template clusters in any dataset, merged or not']
 NSHARDS = 16
 TSVS = ['cluster_Amplitude.tsv', 'cluster_ContamPct.tsv', 'cluster_KSLabel.tsv']
 
@@ -62,20 +64,23 @@ def build(case):
     k = int(rng.choice([1, 2, 2, 3, 3, 4]))
     n_samples = int(rng.integers(10, 40))
     nsw = int(rng.integers(3, 6))
-    rate = [100., 30000.][int(rng.integers(0, 2))]
+    rate = [100., 30000., 30000.185185, 29999.9537][int(rng.integers(0, 4))]      # calibrated (fractional) rates too
     mat_mode = {m: ['all', 'some', 'none'][int(rng.integers(0, 3))] for m in ('wm', 'similar', 'wmi')}
     tsv_mode = {t: ['all', 'some', 'none'][int(rng.integers(0, 3))] for t in TSVS}
     dt_ind = ['int32', 'uint32', 'int64', 'mixed'][int(rng.integers(0, 4))]
     huge = bool(case.get('huge')) and k >= 2      # id files beyond 256 KiB in a probe with a non-zero offset
     many_spikes = bool(rng.random() < 0.02)      # size: thousands of spikes per probe
     big = int(rng.integers(0, max(1, k - 1))) if (k >= 2 and rng.random() < 0.06) else -1   # a non-last probe with > 64 templates
+    # non-finite samples in a template must stay where they are; only in uncurated merges (with curated clusters
+    # load_model itself refuses such templates, merged or not: outside the statement)
+    nonfinite = int(rng.integers(0, k)) if rng.random() < 0.15 else -1
     specs = []
     for p in range(k):
         def pick(mode):
             return mode == 'all' or (mode == 'some' and (p % 2 == 0))
         s = random_spec(rng, nc=int(rng.integers(2, 8)), nt=int(rng.integers(2, 7)) if p != big else int(rng.choice([70, 130])),
                         nsw=nsw, ns=(int(rng.integers(4, 60)) if not many_spikes else int(rng.integers(3000, 6000))) if not (huge and p == 1) else 40000,
-                        rate=rate, n_samples=n_samples, clusters=['same', 'curated'][int(rng.integers(0, 2))],
+                        rate=rate, n_samples=n_samples, clusters=['same', 'curated'][int(rng.integers(0, 2))] if nonfinite < 0 else 'same',
                         wm=pick(mat_mode['wm']), similar=pick(mat_mode['similar']), wmi_file=pick(mat_mode['wmi']),
                         features='sparse', tfeatures=True, nloc=2, tfeat_nloc=2,
                         dtype_ind=dt_ind if dt_ind != 'mixed' else ['int64', 'uint32', 'int32'][p % 3],
@@ -84,6 +89,11 @@ def build(case):
                         spikeless=['none', 'none', 'middle', 'last'][int(rng.integers(0, 4))],
                         ncdat_extra=int(rng.integers(0, 3)), permute_map=bool(rng.integers(0, 2)))
         s.positions = s.positions - s.positions.min(axis=0)        # non-negative coordinates
+        if rng.random() < 0.25:
+            s.notes['fortran'] = 'all'            # column-major .npy files (MATLAB exporters), in any probe incl. the first
+        if p == nonfinite:
+            s.templates[-1, int(rng.integers(0, nsw)), int(rng.integers(0, s.n_channels))] = [np.nan, np.inf, -np.inf][int(rng.integers(0, 3))]
+            s.notes['nonfinite_template'] = True
         ids = np.unique(s.clusters)
         for t in TSVS:
             if pick(tsv_mode[t]):
@@ -111,7 +121,13 @@ def _run(case, ctx, d, which):
     subdirs = []
     same_leaf = case['seed'][-1] % 5 == 2          # .../imec0/ks2, .../imec1/ks2: probe folders with equal names
     for p, s in enumerate(specs):
-        sd = os.path.join(d, 'imec%d' % p, 'ks2') if same_leaf else os.path.join(d, ['probe%d', 'pröbe %d'][case['seed'][-1] % 2] % p)
+        # the order given by the caller is the probe order: names whose lexicographic order differs (imec2 < imec10,
+        # right/left/mid/aux), names with glob metacharacters, spaces and non-ASCII characters
+        if same_leaf:
+            sd = os.path.join(d, 'imec%d' % [2, 10, 11, 3][p], 'ks2')
+        else:
+            style = case['seed'][-1] % 4
+            sd = os.path.join(d, ['probe%d' % p, 'pröbe %d' % p, 'M7[day%d]*' % p, ['right', 'left', 'mid', 'aux'][p]][style])
         s.write(sd)
         subdirs.append(sd)
     out = os.path.join(d, 'merged')
@@ -155,6 +171,25 @@ def _run(case, ctx, d, which):
         if r0.ok:
             ctx.note('merge_succeeded_without_an_input_file')
             call(r0.value.close)
+    if k >= 2 and case['seed'][-1] % 7 == 5:
+        # history: merge, curation goes on in the first probe (a cluster is split: one more cluster id there), then
+        # merge() again on the SAME Merger object; the second merge is the one judged, against the inputs as they are now
+        r0 = call(merger.merge)
+        if r0.ok:
+            call(r0.value.close)
+        s0 = specs[0]
+        sc = s0.clusters.copy()
+        ids0, cnt0 = np.unique(sc, return_counts=True)
+        victim_c = ids0[int(np.argmax(cnt0))]
+        members = np.nonzero(sc == victim_c)[0]
+        if len(members) >= 2:
+            ctx.cell('merged_split_merged_again')
+            f0 = dict(f0, remerged_after_split=True)
+            sc[members[::2]] = int(sc.max()) + 1
+            s0.spike_clusters = sc
+            np.save(os.path.join(subdirs_s[0], 'spike_clusters.npy'), sc)
+            desc['probes'] = [s.describe() for s in specs]
+            before = [snapshot(sd) for sd in subdirs_s]
     r = call(merger.merge)
     audit = mon.fs.stop() if mon.fs else []
     after = [snapshot(sd) for sd in subdirs_s]
